@@ -1,24 +1,54 @@
 """C01 — reported groups contain only byte-identical files, printed length is that length (engine G).
 
 Proof obligations: coq/Props_C01.v over the model coq/GroupModel.v (all file tables, configurations,
-hash functions, nondeterminism records).  Correspondence: the model must reproduce the report body of
-`fclones::group_files` on generated trees, given the hash table of the implementation's own FileHasher,
-and every table entry must equal a one-shot reference hash of exactly the chunk bytes.  Direct oracle:
-byte comparison of all files of every reported group (transform output under --transform).
+hash functions, nondeterminism records incl. read faults).  Correspondence: the extracted model must
+reproduce the report body of `fclones::group_files` on generated trees, given the hash table of the
+implementation's own FileHasher, and every table entry must equal a one-shot reference hash of exactly
+the chunk bytes (64 KiB buffer boundaries included).  Direct oracle: byte comparison of all files of
+every reported group (transform output under --transform).  A sample also goes through the CLI binary.
+Known finding K11 (suffix XOR cancels the prefix hash) is targeted by a dedicated generator.
 """
+import json
+
+from .. import core
 from . import grp_common as G
+
+
+def cli_sample(ctx, eng, specs):
+    """clap glue / report writer: the CLI binary with -f json must print the body group_files returned"""
+    fbin = core.build_fclones()
+    res = eng.run_specs(specs, keep=True)
+    for r in res:
+        ctx.count()
+        ctx.bump("cli_layer", "run")
+        api = G.parse_groups(r["out"]["impl"]) if not r["out"]["impl"].startswith(("ERR", "PANIC")) else None
+        cli = G.run_cli(fbin, r["case"])
+        import shutil
+        shutil.rmtree(r["where"], ignore_errors=True)
+        if api is None or isinstance(cli, str) or [(a, b, c) for a, b, c in api] != [(a, b, c) for a, b, c in cli]:
+            ctx.violation({"kind": "cli_ne_api"}, "the fclones binary (-f json) and fclones::group_files disagree on the report body: "
+                          "cli=%s api=%s" % (str(cli)[:300], str(api)[:300]),
+                          G.replay_payload(r, {"cli_args": G.cli_args(r["case"])}), found_input=False)
+    G.process_results(ctx, eng, res, do_search=False)
 
 
 def run(ctx):
     ctx.rule = ("generated trees (1-3 content families x 1-3 single-byte variants, sizes from the stage-threshold table relative to the "
                 "configured prefix P / suffix S / suffix threshold and the 64 KiB read buffer, hard links, file symlinks, 1-5 roots) x option "
                 "product (7 hash functions, rf-over/rf-under/unique, isolate, match-links, max-prefix/suffix sizes, disk kind pin ssd/hdd/unknown, "
-                "fake mounts, 6 transforms, thread specs, cache); one case = one tree + one option set, run through fclones::group_files and the "
-                "extracted model; non-trivial = some group reported or two scanned files of equal length; distinct = distinct spec")
+                "fake mounts, 6 transforms, thread specs, cache) + trees aimed at K11; one case = one tree + one option set, run through "
+                "fclones::group_files and the extracted model; non-trivial = some group reported or two scanned files of equal length; "
+                "distinct = distinct spec")
     ctx.assumptions = list(G.COMMON_ASSUMPTIONS)
     ctx.trusted += G.COMMON_TRUSTED
     ctx.use_coq()
     if ctx.replay:
         G.run_replay(ctx, "C01")
         return
-    G.run_generated(ctx, "C01", ctx.pick(320, 5000))
+    eng, _ = G.run_generated(ctx, "C01", ctx.pick(420, 6000))
+    k11 = [G.gen_k11_spec(ctx.rng.fork()) for _ in range(ctx.pick(24, 300))]
+    res = eng.run_specs(k11)
+    for r in res:
+        ctx.bump("k11_targeted", "hit" if any(b["kind"] == "group_not_identical" for b in r["oracle_bad"]) else "no-merge")
+    G.process_results(ctx, eng, res)
+    cli_sample(ctx, eng, [G.gen_spec(ctx.rng.fork(), "C01", small=True) for _ in range(ctx.pick(16, 200))])
